@@ -82,6 +82,48 @@ Proof.
     destruct Hl as [Hl|[Hl|Hl]]; destruct Hx as [Hx|[Hx|Hx]]; rewrite Hl, Hx in *; try lia; rewrite He, Hmv;
       repeat match goal with |- context [sh b' ?j] => rewrite (Hf j) by lia end; rewrite ?Hw; lia.
 Qed.
+(* the same for every maxCount in 1..3: the sum runs over the slots below maxCount only *)
+Definition wsumN (w : Z -> Z) (s : Z -> Z) : Z :=
+  w (s 0) + (if Z.ltb 1 mc then w (s 1) else 0) + (if Z.ltb 2 mc then w (s 2) else 0).
+
+Theorem add_wsumN w hc lbc pr ni b : good mc b -> 0 <= cnt b < mc -> w 128 = 0 ->
+  wsumN w (sh (addP mc (hc, lbc, pr, ni) b)) = wsumN w (sh b) + w (pvCalcShortHash (wrapU 64 hc)).
+Proof.
+  intros Hg Hc Hw. destruct (add_frame hc lbc pr ni b Hg Hc) as (Hn & Hf & _).
+  destruct Hg as (_ & Hs). pose proof (Hs (mc - 1 - cnt b) ltac:(lia)) as Hfree.
+  assert (He : sh b (mc - 1 - cnt b) = 128) by lia.
+  unfold wsumN. set (b' := addP mc (hc, lbc, pr, ni) b) in *. clearbody b'.
+  assert (Hk : mc - 1 - cnt b = 0 \/ mc - 1 - cnt b = 1 \/ mc - 1 - cnt b = 2) by lia.
+  destruct (Z.ltb_spec 1 mc); destruct (Z.ltb_spec 2 mc); try lia;
+  destruct Hk as [Hk|[Hk|Hk]]; try lia; rewrite Hk in *; rewrite Hn;
+    repeat match goal with |- context [sh b' ?j] => rewrite (Hf j) by lia end; rewrite ?He, ?Hw; lia.
+Qed.
+
+Theorem rem_wsumN w idx x1 x2 x3 b b' : good mc b -> 0 < cnt b <= mc -> w 128 = 0 ->
+  remP mc (idx, x1, x2, x3) b = Some b' ->
+  wsumN w (sh b') = wsumN w (sh b) - w (sh b idx).
+Proof.
+  intros Hg Hc Hw Hr. destruct (rem_frame idx x1 x2 x3 b b' Hg Hc Hr) as (Hi & Hmv & He & Hf & _).
+  unfold wsumN. remember (mc - cnt b) as l eqn:Hl0.
+  assert (Hl : l = 0 \/ l = 1 \/ l = 2) by lia. assert (Hx : idx = 0 \/ idx = 1 \/ idx = 2) by lia.
+  destruct (Z.ltb_spec 1 mc); destruct (Z.ltb_spec 2 mc); try lia;
+  destruct (Z.eq_dec idx l) as [Heq|Hne];
+  [ subst idx; destruct Hl as [Hl|[Hl|Hl]]; try lia; rewrite Hl in *; rewrite He;
+      repeat match goal with |- context [sh b' ?j] => rewrite (Hf j) by lia end; rewrite ?Hw; lia
+  | specialize (Hmv Hne);
+    destruct Hl as [Hl|[Hl|Hl]]; destruct Hx as [Hx|[Hx|Hx]]; try lia; rewrite Hl, Hx in *; try lia; rewrite He, Hmv;
+      repeat match goal with |- context [sh b' ?j] => rewrite (Hf j) by lia end; rewrite ?Hw; lia
+  | subst idx; destruct Hl as [Hl|[Hl|Hl]]; try lia; rewrite Hl in *; rewrite He;
+      repeat match goal with |- context [sh b' ?j] => rewrite (Hf j) by lia end; rewrite ?Hw; lia
+  | specialize (Hmv Hne);
+    destruct Hl as [Hl|[Hl|Hl]]; destruct Hx as [Hx|[Hx|Hx]]; try lia; rewrite Hl, Hx in *; try lia; rewrite He, Hmv;
+      repeat match goal with |- context [sh b' ?j] => rewrite (Hf j) by lia end; rewrite ?Hw; lia
+  | subst idx; destruct Hl as [Hl|[Hl|Hl]]; try lia; rewrite Hl in *; rewrite He;
+      repeat match goal with |- context [sh b' ?j] => rewrite (Hf j) by lia end; rewrite ?Hw; lia
+  | specialize (Hmv Hne);
+    destruct Hl as [Hl|[Hl|Hl]]; destruct Hx as [Hx|[Hx|Hx]]; try lia; rewrite Hl, Hx in *; try lia; rewrite He, Hmv;
+      repeat match goal with |- context [sh b' ?j] => rewrite (Hf j) by lia end; rewrite ?Hw; lia ].
+Qed.
 End MC.
 
 (* premises are satisfiable: one AddCrt on the empty <.,3,.> bucket, then Remove of that item *)
